@@ -83,6 +83,7 @@ def run(rep: Report, tier: str) -> None:
 	rule_h(rep)
 	rule_i(rep)
 	rule_j(rep)
+	rule_k(rep)
 
 
 def rule_g(rep: Report) -> None:
@@ -705,3 +706,38 @@ def rule_j(rep: Report) -> None:
 			lost = [d for d in range(1, 6) if t(d)]
 			wrap = [d for d in range(-4, 1) if not t(d)]
 			r.check(not lost and not wrap, '_match_terminal:guard', (SYNTAX_PY, guard.lineno), (f'the guard `{unparse(guard.test)[:80]}` refuses a match although {lost[0]} token(s) remain (the first token(s) of the source are unreachable)' if lost else f'the guard `{unparse(guard.test)[:80]}` lets cursor = len(tokens) + {-wrap[-1] if wrap else 0} through: the index len(tokens) - 1 - cursor is negative and tokens[...] wraps round to the END of the list, so an already consumed token is matched again'), unparse(expand(g, guard.test))[:200])
+
+
+def rule_k(rep: Report) -> None:
+	"""A pattern group is (entries, operator, repeat): `a | b` and `a b` have the same entries and differ in the operator only. Wherever the engine builds
+	a group FROM the entries of another group (flattening a bracketed group into the repeat around it, cloning, rewriting) the operator has to travel
+	with the entries; `Patterns(inner.entries, rep=rep)` silently turns the OR group `(name "=" | packing)?` of the argument rule into the sequence
+	`(name "=" packing)?`: every call with a keyword or packed argument is rejected and `f(k=*a)` is accepted."""
+	r = rep.rule('C11/regrouped-entries-keep-their-operator', 'every Patterns(...) built from `<group>.entries` in the engine package passes that group\'s operator along (op=<group>.op)', floor=0)
+	idx = SourceIndex()
+
+	def sites(fn_node: ast.AST):
+		for c_ in walk_no_nested(fn_node):
+			if not (isinstance(c_, ast.Call) and unparse(c_.func) in ('Patterns', 'cls', 'self.__class__') and c_.args):
+				continue
+			donors = {unparse(x.value) for x in ast.walk(c_.args[0]) if isinstance(x, ast.Attribute) and x.attr == 'entries'}
+			if not donors:
+				continue
+			op_arg = c_.args[1] if len(c_.args) > 1 else next((kw.value for kw in c_.keywords if kw.arg == 'op'), None)
+			yield c_, donors, op_arg, op_arg is not None and any(unparse(op_arg) == f'{d}.op' for d in donors)
+
+	# the expected number of sites on today's tree is zero: the recogniser is exercised on a positive example on every run
+	fixture = ast.parse('def _enclosed(inner, rep):\n\ta = Patterns(inner.entries, rep=rep)\n\tb = Patterns(inner.entries, op=inner.op, rep=rep)\n').body[0]
+	if sorted(ok for _, _, _, ok in sites(fixture)) != [False, True]:
+		raise AnalysisError('C11/regrouped-entries-keep-their-operator: the recogniser no longer tells the two forms of its positive example apart')
+	n_ = 0
+	for rel in ('rogw/tranp/implements/syntax/tranp/rule.py', SYNTAX_PY):
+		m = idx.mod(rel)
+		for q, f in m.functions.items():
+			if '#' in q:
+				continue
+			for c_, donors, op_arg, ok in sites(f.node):
+				n_ += 1
+				r.check(ok, f'{q}:{unparse(c_)[:40]}', (rel, c_.lineno), f'`{unparse(c_)[:80]}` takes the entries of {sorted(donors)} but not its operator' + (f' (op is `{unparse(op_arg)}`)' if op_arg is not None else ' (the default is AND)') + ': an OR group regrouped this way becomes a sequence — `arg := (name "=" | packing)? expr` is restored as `(name "=" packing)? expr`, so `f(k=1)`, `f(*a)`, `f(**d)` no longer parse and `f(k=*a)` does', unparse(c_)[:100])
+	if n_ == 0:
+		r.ok('no-regrouping', None, message='no Patterns(...) is built from the entries of another group')
